@@ -50,6 +50,12 @@ var c14FailParts = []string{
 	"union V = E",                     // a union of a non-object
 	"type Z2 implements I { k: Int }", // interface not satisfied
 	"extend type Query { a: Int }",    // duplicate field through an extension
+	// extensions that add something new before they hit the duplicate
+	"extend type Query { fresh: Int a: Int }",
+	"extend enum E { W X }",
+	"type A3 { q: Int } extend union U = A3 | A",
+	"extend input In { k: Int f: Int }",
+	"extend interface I { v: Int x: Int }",
 }
 
 const c14Later = "type Late { l: Int } extend type Query { late: Late } type Mutation { lm: Int }"
